@@ -494,12 +494,12 @@ var oddBase = map[string]reflect.Type{
 	"iface": reflect.TypeOf((*interface{})(nil)).Elem(), "*Config": reflect.TypeOf((*ucfg.Config)(nil)), "map[string]*Config": reflect.TypeOf(map[string]*ucfg.Config{}),
 	"int": reflect.TypeOf(int(0)), "string": reflect.TypeOf(""), "bool": reflect.TypeOf(false), "float": reflect.TypeOf(1.5), "dur": reflect.TypeOf(time.Second),
 	"[]byte": reflect.TypeOf([]byte{}), "map[iface]iface": reflect.TypeOf(map[interface{}]interface{}{}), "Config": reflect.TypeOf(ucfg.Config{}),
-	"nstr": reflect.TypeOf(NStr("")), "nint": reflect.TypeOf(NInt(0)), "uint8": reflect.TypeOf(uint8(0)), "float32": reflect.TypeOf(float32(0)),
+	"*iface": reflect.TypeOf((*interface{})(nil)), "[]*iface": reflect.TypeOf([]*interface{}{}), "nstr": reflect.TypeOf(NStr("")), "nint": reflect.TypeOf(NInt(0)), "uint8": reflect.TypeOf(uint8(0)), "float32": reflect.TypeOf(float32(0)),
 }
 
 var oddNames = func() []string {
 	names := []string{"chan", "func", "complex", "uintptr", "map[int]", "error", "unsafe", "stringer", "time", "[0]int", "struct{}", "iface", "*Config", "map[string]*Config",
-		"int", "string", "bool", "float", "dur", "[]byte", "map[iface]iface", "nstr", "nint", "uint8", "float32"}
+		"int", "string", "bool", "float", "dur", "[]byte", "map[iface]iface", "nstr", "nint", "uint8", "float32", "*iface", "[]*iface"}
 	return names
 }()
 
